@@ -183,7 +183,7 @@ func genC05(r *simrt.Rand, tier string) json.RawMessage {
 			// the node's disk refuses one of its next writes; failing loudly and stopping is the
 			// legal reaction, going on as if the write had happened is not
 			n := r.Range(1, c.Nodes)
-			c.Ops = append(c.Ops, W3Op{K: "diskerr", Node: n, N: r.Range(1, 6)})
+			c.Ops = append(c.Ops, W3Op{K: "diskerr", Node: n, N: r.Range(1, 6), A: r.Intn(2)})
 			c.Ops = append(c.Ops, genWrites(r, c.Nodes, r.Range(1, 4), nIds, &ver, 0.3)...)
 			c.Ops = append(c.Ops, W3Op{K: "wait", Ms: r.Range(100, 2500)}, W3Op{K: "restart", Node: n})
 		case 0:
@@ -774,7 +774,7 @@ func genC03(r *simrt.Rand, tier string) json.RawMessage {
 		switch r.Intn(4) {
 		case 3:
 			// one of the node's next log writes fails (disk full); it restarts after the rest of the workload
-			ops = append(ops, W3Op{K: "diskerr", Node: n, N: r.Range(1, 5)})
+			ops = append(ops, W3Op{K: "diskerr", Node: n, N: r.Range(1, 5), A: r.Intn(2)})
 			cc.W3.Ops = append(cc.W3.Ops, W3Op{K: "wait", Ms: r.Range(100, 2000)}, W3Op{K: "restart", Node: n})
 		case 0:
 			ops = append(ops, W3Op{K: "crash", Node: n}, W3Op{K: "wait", Ms: r.Range(100, 2000)}, W3Op{K: "restart", Node: n})
